@@ -318,8 +318,14 @@ func envOf(e interface{}) int {
 
 // Replay executes one case: the sender writes through a scripted connection,
 // then the receiver reads the accepted bytes through another one.
-func Replay(c Case) Result {
-	res := Result{N: c.N, Cfg: c.Cfg}
+func Replay(c Case) (res Result) {
+	res = Result{N: c.N, Cfg: c.Cfg}
+	defer func() {
+		if p := recover(); p != nil { // the transport is called from this goroutine: a panic in it ends the case, not the batch
+			res.Actual = append(res.Actual, Event{K: "panic", Res: fmt.Sprint(p), Segs: [][3]int{}})
+			res.Match = false
+		}
+	}()
 	ctx, cancel := context.WithTimeout(context.Background(), 20*time.Second)
 	defer cancel()
 	wc := &writeConn{plan: append([]Step(nil), c.Plan.W...)}
